@@ -38,7 +38,7 @@ pub fn raw_case(data: &[u8]) -> C03Case {
 pub fn scale_text(kind: u8, n: u32) -> String {
     let n = n as usize;
     let mut s = String::new();
-    match kind % 12 {
+    match kind % 13 {
         0 => (0..n).for_each(|i| s.push_str(&format!("para{}\n\n", i))),
         1 => (0..n).for_each(|i| s.push_str(&format!("- item{}\n", i))),
         2 => (0..n).for_each(|i| s.push_str(&format!("{}- deep{}\n", "  ".repeat(i), i))),
@@ -64,6 +64,7 @@ pub fn scale_text(kind: u8, n: u32) -> String {
             (0..n).for_each(|i| s.push_str(&format!("[l{}](other) ", i)));
             s.push('\n');
         }
+        12 => (0..n).for_each(|i| s.push_str(&format!("{}. item{}\n", i + 1, i))),
         10 => {
             // one long heading of non-ASCII words of mixed byte widths
             s.push_str("# ");
@@ -241,7 +242,7 @@ impl Property for C03 {
         } else {
             prop_oneof![4 => 1u32..200, 1 => 200u32..1200].boxed()
         };
-        let scale = (0u8..12, size, ext).prop_map(move |(kind, n, ext)| {
+        let scale = (0u8..13, size, ext).prop_map(move |(kind, n, ext)| {
             // depth-like kinds stay smaller: nesting is quadratic in text size
             let n = match kind {
                 2 | 3 | 9 => {
